@@ -26,6 +26,7 @@ import (
 	sigkeeper "github.com/chain4energy/c4e-chain/x/cfesignature/keeper"
 	sigtypes "github.com/chain4energy/c4e-chain/x/cfesignature/types"
 	vesttypes "github.com/chain4energy/c4e-chain/x/cfevesting/types"
+	appparams "github.com/chain4energy/c4e-chain/app/params"
 	"github.com/cosmos/cosmos-sdk/crypto/keys/secp256k1"
 	"github.com/cosmos/cosmos-sdk/simapp"
 	"github.com/cosmos/cosmos-sdk/simapp/helpers"
@@ -53,6 +54,9 @@ type plannedTx struct {
 type plannedBlock struct {
 	t   time.Time
 	txs []plannedTx
+	// minter parameter update applied on the block's deliver state after the transactions (the way an
+	// executed governance proposal changes parameters); nil = none
+	minterUpdate *mintertypes.Params
 }
 
 type appRun struct {
@@ -269,6 +273,22 @@ func (r *appRun) runBlock(pb plannedBlock, tracked []sdk.AccAddress, rep *Report
 			}
 		}
 	}
+	if pb.minterUpdate != nil {
+		err := app.CfeminterKeeper.UpdateParams(ctx, appparams.GetAuthority(), *pb.minterUpdate)
+		sb.WriteString(fmt.Sprintf("minter-update %v;", err == nil))
+		if record {
+			rep.Count("minter_update")
+			if err == nil {
+				rep.Count("minter_update.ok")
+			}
+		}
+	}
+	// a replica that also serves read-only queries (VERIF_QUERIES=1): queries are answered from committed
+	// state and must not influence what the node computes; they are not part of the trace
+	serveQueries := os.Getenv("VERIF_QUERIES") == "1"
+	if serveQueries {
+		serveReadOnlyQueries(app)
+	}
 	var re abci.ResponseEndBlock
 	var hash []byte
 	func() {
@@ -279,6 +299,9 @@ func (r *appRun) runBlock(pb plannedBlock, tracked []sdk.AccAddress, rep *Report
 		}()
 		re, hash = ta.End()
 	}()
+	if serveQueries {
+		serveReadOnlyQueries(app)
+	}
 	if o.panicked != "" {
 		return
 	}
@@ -304,6 +327,17 @@ func (r *appRun) runBlock(pb plannedBlock, tracked []sdk.AccAddress, rep *Report
 	o.balances = vb.String()
 	o.trace = sb.String()
 	return
+}
+
+// serveReadOnlyQueries answers a few gRPC queries of the custom modules through ABCI Query (latest committed height).
+func serveReadOnlyQueries(app *c4eapp.App) {
+	defer func() { recover() }() //nolint:errcheck
+	for _, path := range []string{"/chain4energy.c4echain.cfeminter.Query/Inflation", "/chain4energy.c4echain.cfeminter.Query/Params",
+		"/chain4energy.c4echain.cfeminter.Query/State", "/chain4energy.c4echain.cfedistributor.Query/Params",
+		"/chain4energy.c4echain.cfedistributor.Query/States", "/chain4energy.c4echain.cfevesting.Query/Params",
+		"/chain4energy.c4echain.cfevesting.Query/VestingsSummary"} {
+		app.Query(abci.RequestQuery{Path: path, Data: nil})
+	}
 }
 
 func newAppRun(genesis []byte, genTime time.Time, initialHeight int64, users []appUser) *appRun {
@@ -408,6 +442,12 @@ func runAppCase(seed uint64, idx int, rep *Report, profile string, traceDir stri
 		span = time.Hour
 	}
 	poolN := 0
+	type plannedPool struct {
+		user int
+		name string
+		amt  *big.Int
+	}
+	var pools []plannedPool
 	for b := 0; b < nBlocks; b++ {
 		switch rng.Intn(4) {
 		case 0:
@@ -432,6 +472,9 @@ func runAppCase(seed uint64, idx int, rep *Report, profile string, traceDir stri
 				amt := sdk.NewIntFromBigInt(rng.LogUniform(16))
 				dur := time.Duration(1+rng.I64n(200)) * time.Hour
 				vt := []string{"vt01", "vt02", "nope"}[rng.Pick(5, 5, 1)]
+				if vt != "nope" {
+					pools = append(pools, plannedPool{ui, name, amt.BigInt()})
+				}
 				ptx = plannedTx{user: ui, fee: fee, kind: "create_pool", msg: func(us []appUser) sdk.Msg {
 					return &vesttypes.MsgCreateVestingPool{Owner: us[ui].addr.String(), Name: name, Amount: amt, Duration: dur, VestingType: vt}
 				}}
@@ -448,6 +491,11 @@ func runAppCase(seed uint64, idx int, rep *Report, profile string, traceDir stri
 				to := recipients[rng.Intn(len(recipients))]
 				amt := sdk.NewIntFromBigInt(rng.LogUniform(12))
 				restart := rng.Bool()
+				if len(pools) > 0 && rng.Chance(75) { // a send that can succeed: the pool's owner, a fraction of what the pool got
+					pp := pools[rng.Intn(len(pools))]
+					ui, name = pp.user, pp.name
+					amt = sdk.NewIntFromBigInt(new(big.Int).Div(pp.amt, bi(int64(4+rng.Intn(20)))))
+				}
 				ptx = plannedTx{user: ui, fee: fee, kind: "send", msg: func(us []appUser) sdk.Msg {
 					return &vesttypes.MsgSendToVestingAccount{Owner: us[ui].addr.String(), ToAddress: to.String(), VestingPoolName: name, Amount: amt, RestartVesting: restart}
 				}}
@@ -481,6 +529,26 @@ func runAppCase(seed uint64, idx int, rep *Report, profile string, traceDir stri
 	if profile != "noexport" && rng.Chance(70) && nBlocks > 3 {
 		exportAt = 1 + rng.Intn(nBlocks-2)
 	}
+	// a governance-style update of the minter parameters in the middle of the history: every amount doubled
+	// (the period list, ids and times stay, so the current period still exists and nothing minted so far is taken back)
+	updateAt := -1
+	var mc2 minterCfg
+	if rng.Chance(45) && nBlocks > 3 {
+		updateAt = 1 + rng.Intn(nBlocks-2)
+		mc2 = mc
+		mc2.minters = append([]genMinter{}, mc.minters...)
+		for i := range mc2.minters {
+			if mc2.minters[i].amt != nil {
+				mc2.minters[i].amt = new(big.Int).Mul(mc2.minters[i].amt, bi(2))
+			}
+		}
+		p2 := mc2.params()
+		if p2.Validate() == nil {
+			plan[updateAt].minterUpdate = &p2
+		} else {
+			updateAt = -1
+		}
+	}
 
 	// ---- run
 	var traceLines []string
@@ -488,6 +556,13 @@ func runAppCase(seed uint64, idx int, rep *Report, profile string, traceDir stri
 	supply0 := app.BankKeeper.GetSupply(app.BaseApp.NewContext(true, tmproto.Header{}), BondDenom).Amount.BigInt()
 	var twin *appRun
 	nontrivial := false
+	cumMinted := bi(0)
+	var cases []string
+	caseParams, caseState := mc.paramsTerm(), stateTerm(mstate)
+	flush := func(id int) {
+		cases = append(cases, fmt.Sprintf("{| ac_id := %d; ac_params := %s; ac_state := %s;\n ac_blocks := [\n  %s] |}", id, caseParams, caseState, strings.Join(blocks, ";\n  ")))
+		blocks = nil
+	}
 	for bIdx, pb := range plan {
 		o := run.runBlock(pb, tracked, rep, idx, bIdx, true)
 		rep.Ops++
@@ -507,6 +582,18 @@ func runAppCase(seed uint64, idx int, rep *Report, profile string, traceDir stri
 		}
 		blocks = append(blocks, zPair(zI(pb.t.UnixNano()), zListB([]*big.Int{bi(1), minted, bi(int64(o.minter.SequenceId)), o.minter.AmountMinted.BigInt(),
 			o.minter.RemainderToMint.BigInt(), o.minter.RemainderFromPreviousMinter.BigInt(), bi(o.minter.LastMintBlockTime.UnixNano())})))
+		// C01: what has been minted since genesis is the scheduled emission (independent exact-rational schedule), until the parameters change
+		if o.minted != nil && (updateAt < 0 || bIdx <= updateAt) {
+			cumMinted.Add(cumMinted, o.minted)
+			if want := scheduleCumulative(mc, pb.t); want != nil {
+				rep.Eval("C01.minted_follows_schedule", cumMinted.Cmp(want) == 0, idx, bIdx, fmt.Sprintf("minted since genesis %v, schedule %v at %d", cumMinted, want, pb.t.UnixNano()))
+			}
+		}
+		if bIdx == updateAt && updateAt >= 0 {
+			// the model continues under the new parameters from the state the implementation reached
+			flush(idx)
+			caseParams, caseState = mc2.paramsTerm(), stateTerm(o.minter)
+		}
 		// ---- C12: twin restored from the exported genesis replays the same suffix
 		if twin != nil {
 			ot := twin.runBlock(pb, tracked, rep, idx, bIdx, false)
@@ -579,7 +666,12 @@ func runAppCase(seed uint64, idx int, rep *Report, profile string, traceDir stri
 	_ = supply0
 	_ = bytes.Compare
 	_ = sort.Strings
-	return []string{fmt.Sprintf("{| ac_id := %d; ac_params := %s; ac_state := %s;\n ac_blocks := [\n  %s] |}", idx, mc.paramsTerm(), stateTerm(mstate), strings.Join(blocks, ";\n  "))}
+	if updateAt >= 0 {
+		flush(idx + 1000000)
+	} else {
+		flush(idx)
+	}
+	return cases
 }
 
 func rawStoreDump(app *c4eapp.App, storeKey string) string {
